@@ -1237,7 +1237,10 @@ def evaluate_log_F_ext(
             )
             if num_F_ext_evaluations <= 0:
                 evaluations = _evaluate_log_F_ext_using_lmfit(**evaluation_kwargs)
-            elif num_procs > 1:
+            elif num_procs > 1 and test != "cnls":
+                # The CNLS implementation uses its own pool of processes and
+                # daemonic pool workers cannot have children, so that case is
+                # handled by the final branch.
                 # TODO: Figure out why this causes a RuntimeError related to
                 # the matplotlib window. Tends to happen when using the CLI and
                 # several windows have been shown. The same doesn't happen when,
